@@ -203,6 +203,16 @@ def _seed_for(seed, shard, name):
     return (zlib.crc32(f"{seed}/{shard}/{name}".encode()) ^ (seed * 2654435761)) & 0x7FFFFFFF
 
 
+def checked(check, case, ctx):
+    """Run one check; afterwards every dataset it opened through open_case must be bit for bit
+    what it was (dims, dtypes, values, attributes): no operation under test is documented to
+    write into its input, and every property presupposes that reading does not change the data."""
+    from vf.props import _util
+    _util.reset_opened()
+    check(case, ctx)
+    _util.verify_untouched(ctx)
+
+
 def _make_body(sub, state, t0, ctx):
     def body(case):
         if sub.budget_s and time.time() - t0 > sub.budget_s and state["last_fail"] is None:
@@ -211,7 +221,7 @@ def _make_body(sub, state, t0, ctx):
         ctx.begin(sub.name, case)
         state["ran"] += 1
         try:
-            sub.check(case, ctx)
+            checked(sub.check, case, ctx)
         except BaseException as exc:  # noqa: BLE001
             if isinstance(exc, (KeyboardInterrupt, SystemExit)):
                 raise
@@ -254,7 +264,7 @@ def run_shard(args):
             ctx.begin(enum.name, case)
             n += 1
             try:
-                enum.check(case, ctx)
+                checked(enum.check, case, ctx)
             except BaseException as exc:  # noqa: BLE001
                 if isinstance(exc, (KeyboardInterrupt, SystemExit)):
                     raise
@@ -327,7 +337,7 @@ def replay_case(prop_id, sub_name, case):
     try:
         with warnings.catch_warnings():
             warnings.simplefilter("ignore")
-            target.check(case, ctx)
+            checked(target.check, case, ctx)
     except BaseException as exc:  # noqa: BLE001
         if isinstance(exc, (KeyboardInterrupt, SystemExit)):
             raise
